@@ -1,5 +1,5 @@
 import AnsiModel.Slice
-import AnsiModel.Generated.Methods
+import AnsiModel.Generated.Methods.AssignStr
 /-
   Property C11, part c — `assign_str`, from the source.
 
